@@ -882,6 +882,9 @@ fn schedule_options(fc: &FileCtx) -> Vec<Opts> {
     v.push(Opts { sel: Some(SelSpec { bits: pat(&|i| i == n / 2), pres: PRES_MIN }), policy: 1, page_index: true, ..Default::default() });
     v.push(Opts { preds: vec![p(PredKind::False, vec![0])], ..Default::default() });
     if fc.f.rg_sizes.len() == 3 {
+        // a non-last predicate empties the first / the middle row group while another predicate is pending
+        v.push(Opts { preds: vec![p(PredKind::RejectRows(fc.rg_rows[0].start, fc.rg_rows[0].end), vec![0]), p(PredKind::Hash(2), vec![nl - 1])], ..Default::default() });
+        v.push(Opts { preds: vec![p(PredKind::RejectRows(fc.rg_rows[1].start, fc.rg_rows[1].end), vec![nl - 1]), p(PredKind::RejectRows(fc.rg_rows[0].start, fc.rg_rows[0].end), vec![0])], limit: Some(2), ..Default::default() });
         v.push(Opts {
             rgs: Some(vec![2, 0]),
             preds: vec![p(PredKind::Hash(1), vec![nl - 1]), p(PredKind::Hash(2), vec![0])],
@@ -1220,7 +1223,7 @@ pub fn run(ctx: &Ctx) -> ! {
             "push": {"apis": ["try_decode", "try_next_reader", "try_next_reader-deferred-drain"], "deviation_bound": push_bound, "deviation_bound_note": "quick: 1 for deferred drain; thorough: additionally all traces with exactly 4 deviations for try_decode/try_next_reader on the 3-row-group layouts, option points 0..4 (scheduled last)", "pre_call_alternatives": ["nothing", "push whole file (first call)", "push first row group (first call)", "push last row group (first call)", "into_builder+build (boundary)", "into_builder+with_batch_size(2)+build (boundary)", "clear_all_ranges (boundary)", "switch API"],
                 "answer_alternatives": ["exact", "reversed", "rotated", "push_range one by one", "every range twice", "first range only then call", "all but first then call", "nothing then call", "each range +-1 byte", "one enclosing range", "whole row groups", "whole file", "exact + next row group early", "exact then switch API"]},
             "async": {"modes": "vectored x metadata-up-front x next_row_group x spurious-poll (16)", "deviation_bound(pending gates)": async_bound},
-            "schedule_option_points_per_file": "12 (15 for 3-row-group layouts)",
+            "schedule_option_points_per_file": "12 (17 for 3-row-group layouts)",
             "sweep": "every configuration within 1 deviation x 4 selections x 4 (offset,limit) pairs on all files (thorough: also every 2-deviation configuration x 2 selections x 2 pairs); full selection x offset x limit core on mix3/L1 and struct-with-list/L5; quick: each under 12 fixed push schedules and 12 fixed async schedules; thorough: each under every single-deviation push schedule (3 APIs) and every single pending gate (4 async modes)",
             "max_requested_bytes_over_file_len": *ratio_max.lock().unwrap(),
             "state_key": "(last result kind, is_at_row_group_boundary, row_groups_remaining, buffered_bytes, rows emitted) per work item, summed over work items"}),
